@@ -53,6 +53,19 @@ var c21pats = []c21pat{
 	{"t", "*", "*", 0, false},
 }
 
+// c21new builds the settings object the way the package does (New), with the start-up
+// directory checks stubbed out and nothing to load; the persisted model goes to a scratch dir.
+func c21new(h *verifrt.H) *settings {
+	h.Stub("github.com/hydraide/hydraide/app/core/settings.checkFolder", func(string) {})
+	dir := h.TempDir() + "/settings"
+	saved := c21saved
+	c21saved = nil // New loads the persisted model: start empty, the caller loads explicitly
+	st := New(0, 0).(*settings)
+	c21saved = saved
+	hydraSettingsFolderPath = dir
+	return st
+}
+
 // VerifC21Settings: up to maxPatterns overlapping patterns (exact, realm wildcard, swamp
 // wildcard, non-matching) registered in any order with distinct settings, with re-registration
 // and deregistration, for EVERY map iteration order: the settings resolved for s/r/w are those
@@ -63,7 +76,7 @@ func VerifC21Settings(h *verifrt.H) {
 	h.Stub("encoding/json.Unmarshal", c21unmarshal)
 	c21saved = nil
 	hydraSettingsFolderPath = h.TempDir() + "/settings"
-	s := &settings{patterns: map[string]setting.Setting{}, model: &Model{Patterns: map[string]*PatternModel{}}}
+	s := c21new(h)
 	type reg struct {
 		idle  int64
 		mem   bool
@@ -71,6 +84,7 @@ func VerifC21Settings(h *verifrt.H) {
 	}
 	cur := make([]*reg, len(c21pats))
 	n := h.Len("steps", 1, h.Param("maxSteps", 3))
+	lookAfter := h.Choose("lookupAfterStep", n) // the last step's lookup is the final check itself: n-1 = none
 	for i := 0; i < n; i++ {
 		k := h.Choose("pattern", len(c21pats))
 		p := c21pats[k]
@@ -89,6 +103,10 @@ func VerifC21Settings(h *verifrt.H) {
 			s.RegisterPattern(pn, false, r.idle, &FileSystemSettings{WriteIntervalSec: r.write, MaxFileSizeByte: 100})
 		}
 		cur[k] = r
+		// a lookup between two registrations must not influence later lookups
+		if i == lookAfter {
+			s.GetBySwampName(name.New().Sanctuary("s").Realm("r").Swamp("w"))
+		}
 	}
 	// expected: a most specific registered matching pattern; with two matching patterns of equal
 	// specificity (s/r/* and s/*/w) either may win, but the choice must not depend on the
@@ -143,7 +161,7 @@ func VerifC21Settings(h *verifrt.H) {
 	}
 	check(s, "lookup")
 	// the same final set registered in the opposite order must resolve identically
-	sRev := &settings{patterns: map[string]setting.Setting{}, model: &Model{Patterns: map[string]*PatternModel{}}}
+	sRev := c21new(h)
 	keep := c21saved
 	for k := len(cur) - 1; k >= 0; k-- {
 		if cur[k] == nil {
@@ -160,7 +178,7 @@ func VerifC21Settings(h *verifrt.H) {
 	c21saved = keep
 	check(sRev, "reverse-registration")
 	// restart: a fresh settings object loads the persisted model
-	s2 := &settings{patterns: map[string]setting.Setting{}, model: &Model{Patterns: map[string]*PatternModel{}}}
+	s2 := c21new(h)
 	h.MapOrderNondet(true)
 	lerr := s2.loadSettingsFromFilesystem()
 	h.MapOrderNondet(false)
